@@ -1,0 +1,23 @@
+package gtree
+
+import (
+	"bufio"
+	"io"
+)
+
+// lineScanner is a bufio.Scanner over the lines of the input that stops at a read error.
+//
+// After its reader has failed, bufio.Scanner still hands out what it holds as a last token: a line that the
+// failure cut short. Parsing that fragment would answer a broken input with a complaint about its format;
+// the caller is owed the reader's error, which Err reports once Scan has returned false.
+type lineScanner struct {
+	*bufio.Scanner
+}
+
+func newLineScanner(r io.Reader) *lineScanner {
+	return &lineScanner{Scanner: bufio.NewScanner(r)}
+}
+
+func (s *lineScanner) Scan() bool {
+	return s.Scanner.Scan() && s.Scanner.Err() == nil
+}
